@@ -220,7 +220,15 @@ Lemma write_all_loop_step fuel iovmax s bufs off total c :
        let '(r, lg, s'') := write_all_loop sys fuel iovmax s' bufs off total in
        (r, (c, a) :: lg, s'')
      else (WDone (if total =? 0 then RErr e else ROk total), [(c, a)], s')
-   | AOk O => (WDone (ROk total), [(c, a)], s')
+   | AOk O =>
+     if ((if iovmax <? length bufs then iovmax else length bufs) <? length bufs) &&
+        forallb (fun b => length b =? 0)
+                (firstn (if iovmax <? length bufs then iovmax else length bufs) bufs) then
+       let '(r, lg, s'') :=
+         write_all_loop sys fuel iovmax s'
+           (skipn (if iovmax <? length bufs then iovmax else length bufs) bufs) off total in
+       (r, (c, a) :: lg, s'')
+     else (WDone (ROk total), [(c, a)], s')
    | AOk n =>
      let '(o, bufs') := buf_offset bufs n in
      let off' := if (0 <=? off)%Z then (off + Z.of_nat n)%Z else off in
@@ -250,6 +258,24 @@ Proof.
       inversion H; reflexivity. }
   rewrite Hn. destruct (iovmax <? length bufs) eqn:E; auto.
   apply Nat.ltb_ge in E. rewrite !firstn_all2; auto.
+Qed.
+
+Lemma call_window_nb bufs iovmax off c :
+  pick_call bufs (if iovmax <? length bufs then iovmax else length bufs) off = Some c ->
+  riov c = firstn (if iovmax <? length bufs then iovmax else length bufs) bufs.
+Proof.
+  intros H. rewrite (call_window _ _ _ _ H).
+  destruct (iovmax <? length bufs) eqn:E; auto.
+  apply Nat.ltb_ge in E. rewrite !firstn_all2; auto.
+Qed.
+
+Lemma all_empty_concat (l : list (buf A)) :
+  forallb (fun b => length b =? 0) l = true <-> concat l = [].
+Proof.
+  induction l as [|b l IH]; simpl; [tauto|].
+  rewrite andb_true_iff, IH, Nat.eqb_eq, length_zero_iff_nil. split.
+  - intros [-> ->]. reflexivity.
+  - intros H. apply app_eq_nil in H. tauto.
 Qed.
 
 Lemma call_of_loop bufs iovmax off c :
@@ -320,13 +346,31 @@ Proof.
            { intros e0 He. destruct (total =? 0) eqn:E; inversion He.
              apply Nat.eqb_eq in E. simpl; auto. }
       * destruct n as [|m].
-        -- inversion H; subst. six.
-           { reflexivity. }
-           { simpl; lia. }
-           { simpl. split; [exact Hoff | exact I]. }
-           { constructor; [exact Hlen | constructor]. }
-           { intros t Ht. inversion Ht. simpl; lia. }
-           { intros e He. discriminate. }
+        -- set (nb := if iovmax <? length bufs then iovmax else length bufs) in *.
+           destruct ((nb <? length bufs) && forallb (fun b0 => length b0 =? 0) (firstn nb bufs)) eqn:Esk.
+           ++ (* an all-empty window is skipped *)
+              apply andb_prop in Esk as [_ Hemp]. apply all_empty_concat in Hemp.
+              destruct (write_all_loop sys fuel iovmax s1 (skipn nb bufs) off total)
+                as [[r1 lg1] s2] eqn:Hr.
+              inversion H; subst. inversion Hh; subst.
+              destruct (IH _ _ _ _ _ _ _ _ Hr H3) as (I1 & I2 & I3 & I4 & I5 & I6).
+              assert (Hcc : concat (skipn nb bufs) = concat bufs)
+                by (rewrite (concat_firstn_skipn nb bufs), Hemp; reflexivity).
+              unfold total_len in I2. rewrite Hcc in I1, I2.
+              rewrite written_cons. six.
+              { exact I1. }
+              { exact I2. }
+              { simpl. split; [exact Hoff|]. destruct (0 <=? off)%Z; [rewrite Z.add_0_r|]; exact I3. }
+              { constructor; [exact Hlen | exact I4]. }
+              { exact I5. }
+              { exact I6. }
+           ++ inversion H; subst. six.
+              { reflexivity. }
+              { simpl; lia. }
+              { simpl. split; [exact Hoff | exact I]. }
+              { constructor; [exact Hlen | constructor]. }
+              { intros t Ht. inversion Ht. simpl; lia. }
+              { intros e He. discriminate. }
         -- set (n := S m) in *.
            destruct (buf_offset bufs n) as [o bufs1] eqn:Hbo.
            destruct (write_all_loop sys fuel iovmax s1 (skipn o bufs1)
@@ -349,10 +393,6 @@ Proof.
 Qed.
 
 (* ---- completeness ---- *)
-(* no run of iovmax empty buffers is followed by data *)
-Definition no_empty_window (iovmax : nat) bufs : Prop :=
-  forall k, concat (firstn iovmax (skipn k bufs)) = [] -> concat (skipn k bufs) = [].
-
 (* the system never fails (EINTR aside) and never answers 0 to a request for
    at least one byte *)
 Definition progress (lg : list (rwcall A * answer)) : Prop :=
@@ -367,55 +407,53 @@ Proof.
   destruct l; simpl; [now rewrite skipn_nil | apply IH].
 Qed.
 
-Lemma wnd_skipn iovmax bufs o : no_empty_window iovmax bufs -> no_empty_window iovmax (skipn o bufs).
-Proof. intros H k. rewrite skipn_skipn'. apply H. Qed.
-
-Lemma wnd_head iovmax b b' rest :
-  1 <= iovmax -> b' <> [] -> no_empty_window iovmax (b :: rest) -> no_empty_window iovmax (b' :: rest).
-Proof.
-  intros Hi Hb H [|k]; simpl.
-  - destruct iovmax; [lia|]. simpl. intros Hnil. apply app_eq_nil in Hnil as [Hnil _]. contradiction.
-  - apply (H (S k)).
-Qed.
-
 Theorem write_all_complete_gen :
   forall (fuel iovmax : nat) (s : St) bufs (off : Z) (total : nat) x lg s',
-  1 <= iovmax ->
   write_all_loop sys fuel iovmax s bufs off total = (WDone x, lg, s') ->
-  honest lg -> progress lg -> no_empty_window iovmax bufs ->
+  honest lg -> progress lg ->
   x = ROk (total + total_len bufs) /\ wcount lg = total_len bufs.
 Proof.
-  induction fuel as [|fuel IH]; intros iovmax s bufs off total x lg s' Hi H Hh Hp Hw.
+  induction fuel as [|fuel IH]; intros iovmax s bufs off total x lg s' H Hh Hp.
   - simpl in H. destruct bufs as [|b bs].
     + inversion H; subst. unfold total_len; simpl. split; [f_equal; lia|reflexivity].
-    + destruct (pick_call (b :: bs) _ off) eqn:Hc; [inversion H|].
-      exfalso. revert Hc. apply pick_call_is_some. simpl.
-      destruct (iovmax <? S (length bs)); lia.
+    + destruct (pick_call (b :: bs) _ off); inversion H.
   - simpl in H. destruct bufs as [|b bs].
     + inversion H; subst. unfold total_len; simpl. split; [f_equal; lia|reflexivity].
     + set (bufs := b :: bs) in *.
       destruct (pick_call bufs (if iovmax <? length bufs then iovmax else length bufs) off)
-        as [c|] eqn:Hc.
-      2:{ exfalso. revert Hc. apply pick_call_is_some. unfold bufs; simpl.
-          destruct (iovmax <? S (length bs)); lia. }
+        as [c|] eqn:Hc; [|inversion H].
       destruct (call_of_loop _ _ _ _ Hc) as (Hpre & Htl & Hlen & Hoff).
-      destruct (pick_call_some _ _ _ _ Hc) as (k & Hk & Hkle & Hk1 & _).
+      pose proof (call_window_nb _ _ _ _ Hc) as Hwin.
       destruct (sys s c) as [a s1] eqn:Hs.
       destruct a as [e|n].
       * destruct (e =? EINTR)%Z eqn:Ee.
         -- destruct (write_all_loop sys fuel iovmax s1 bufs off total) as [[r1 lg1] s2] eqn:Hr.
            inversion H; subst. inversion Hh; subst. inversion Hp; subst.
-           destruct (IH _ _ _ _ _ _ _ _ Hi Hr H3 H5 Hw) as [I1 I2]. split; auto.
+           destruct (IH _ _ _ _ _ _ _ _ Hr H3 H5) as [I1 I2]. split; auto.
         -- inversion H; subst. inversion Hp; subst. simpl in H2. subst e. discriminate.
       * destruct n as [|m].
-        -- (* the system answered 0: only possible when the window is empty *)
-           inversion H; subst. inversion Hp as [|? ? Hz _]; subst. simpl in Hz.
-           assert (Hwin : total_len (riov c) = 0) by lia.
-           assert (Hall : total_len bufs = 0).
-           { unfold total_len in *. apply length_zero_iff_nil in Hwin.
-             rewrite (call_window _ _ _ _ Hc) in Hwin.
-             specialize (Hw 0). change (skipn 0 bufs) with bufs in Hw. rewrite (Hw Hwin). reflexivity. }
-           rewrite Hall. simpl. split; [f_equal; lia|reflexivity].
+        -- (* the system answered 0: by [progress] the window holds no byte *)
+           set (nb := if iovmax <? length bufs then iovmax else length bufs) in *.
+           assert (Hz : total_len (riov c) = 0).
+           { destruct ((nb <? length bufs) && _) in H;
+               [destruct (write_all_loop _ _ _ _ _ _ _) as [[? ?] ?] in H|];
+               inversion H; subst; inversion Hp as [|? ? Hq _]; subst; simpl in Hq; lia. }
+           rewrite Hwin in Hz. unfold total_len in Hz. apply length_zero_iff_nil in Hz.
+           assert (Hemp := proj2 (all_empty_concat _) Hz).
+           destruct (nb <? length bufs) eqn:Enb; cbn [andb] in H.
+           ++ rewrite Hemp in H.
+              destruct (write_all_loop sys fuel iovmax s1 (skipn nb bufs) off total)
+                as [[r1 lg1] s2] eqn:Hr.
+              inversion H; subst. inversion Hh; subst. inversion Hp; subst.
+              destruct (IH _ _ _ _ _ _ _ _ Hr H3 H5) as [I1 I2].
+              assert (Hcc : total_len (skipn nb bufs) = total_len bufs)
+                by (unfold total_len; rewrite (concat_firstn_skipn nb bufs), Hz; reflexivity).
+              rewrite Hcc in I1, I2. split; [exact I1 | exact I2].
+           ++ (* the window is the whole remaining list *)
+              inversion H; subst. apply Nat.ltb_ge in Enb.
+              assert (Hall : total_len bufs = 0).
+              { unfold total_len. rewrite firstn_all2 in Hz by exact Enb. now rewrite Hz. }
+              rewrite Hall. simpl. split; [f_equal; lia|reflexivity].
         -- set (n := S m) in *.
            destruct (buf_offset bufs n) as [o bufs1] eqn:Hbo.
            destruct (write_all_loop sys fuel iovmax s1 (skipn o bufs1)
@@ -425,33 +463,12 @@ Proof.
            inversion Hp as [|? ? _ Hp1]; subst. simpl in Hn.
            assert (Hnb : n <= total_len bufs) by lia.
            destruct (buf_offset_concat _ _ _ _ Hbo Hnb) as [Hcc _].
-           assert (Hw1 : no_empty_window iovmax (skipn o bufs1)).
-           { destruct (buf_offset_shape _ _ _ _ Hbo Hnb) as [Heq|(b0 & b' & rest & E1 & E2 & Hne)].
-             - rewrite Heq. now apply wnd_skipn.
-             - rewrite E2. apply (wnd_head iovmax b0); auto. rewrite <- E1. now apply wnd_skipn. }
-           destruct (IH _ _ _ _ _ _ _ _ Hi Hr Hh1 Hp1 Hw1) as [I1 I2].
+           destruct (IH _ _ _ _ _ _ _ _ Hr Hh1 Hp1) as [I1 I2].
            assert (Hl : total_len (skipn o bufs1) = total_len bufs - n)
              by (unfold total_len; rewrite Hcc, skipn_length; reflexivity).
            rewrite Hl in I1, I2. simpl. split; [rewrite I1; f_equal; lia | lia].
 Qed.
 
 End WA.
-
-(* no_empty_window holds whenever the list fits one call, or has no empty buffer *)
-Lemma wnd_short iovmax bufs : length bufs <= iovmax -> no_empty_window iovmax bufs.
-Proof.
-  intros H k. rewrite firstn_all2; auto. rewrite skipn_length. lia.
-Qed.
-
-Lemma wnd_nonempty iovmax bufs :
-  1 <= iovmax -> Forall (fun b => b <> []) bufs -> no_empty_window iovmax bufs.
-Proof.
-  intros Hi Hf k Hnil.
-  assert (Hs : Forall (fun b => b <> []) (skipn k bufs)).
-  { rewrite <- (firstn_skipn k bufs) in Hf. apply Forall_app in Hf. tauto. }
-  destruct (skipn k bufs) as [|b l]; auto.
-  destruct iovmax; [lia|]. simpl in Hnil. apply app_eq_nil in Hnil as [Hb _].
-  inversion Hs; subst. contradiction.
-Qed.
 
 End B.
